@@ -1558,10 +1558,12 @@ def mon_c07(ix: Index):  # noqa: C901, PLR0912
         out.append(V("C07", "C07/execution-never-woken", "execution is PENDING with no timer armed, no external event awaited and nothing delivered during the invocation"))
     elif stop == "max-invocations":
         out.append(V("C07", "C07/invocation-bound-exceeded", "execution did not reach a terminal status within %d invocations" % len(ix.r["invocations"])))
-    elif stop == "hang" and not ix.r["scenario"].get("faults"):
+    elif stop == "hang":
         h = next((x for x in ix.trace if x["kind"] == "hang"), {})
         if h.get("verdict") == "hang":
-            out.append(V("C07", "C07/invocation-blocked-forever", "invocation hung: every thread parked, no API call in flight", h.get("i")))
+            faulted = bool(ix.r["scenario"].get("faults")) and any(e["kind"] == "api" and e.get("fault") for e in ix.trace)
+            out.append(V("C07", "C07/invocation-blocked-forever" + ("/after-checkpoint-failure" if faulted else ""),
+                         "invocation hung: every thread parked, no API call in flight", h.get("i")))
     elif stop == "spin":
         sp = next((x for x in ix.trace if x["kind"] == "spin"), {})
         # classify by what the parked branches were waiting on
